@@ -107,6 +107,7 @@ type Obligation struct {
 	Res SolverResult
 	SMTFile string
 	WallS  float64
+	Retried bool // solved again with a longer timeout after an undecided first attempt
 	postSt *State
 	ClauseTerm string
 	Extra  []string // extra declarations/assertions local to this obligation (skolems)
